@@ -22,13 +22,24 @@ def solovev_params(rng, sign, idx):
         # aspect ratio R0/a > 2.2 keeps R0^2 - 2 a R0 > 0 (the LCFS contour closed) and the grid at r > 0
         "R0": R0, "a": dyadic(rng, 0.4, min(0.9, 0.45 * R0), 4), "kappa": dyadic(rng, 1.0, 1.8, 3),
         "psi0": dyadic(rng, 0.25, 2.0, 4), "psi_axis_true": dyadic(rng, -1.0, 1.0, 4),
-        "nr": rng.randint(9, 40), "nz": rng.randint(9, 40),
+        # grid sizes from the smallest np.gradient(edge_order=2) accepts (3) upwards
+        "nr": rng.choice([3, 4, 5]) if rng.random() < 0.15 else rng.randint(6, 40),
+        "nz": rng.choice([3, 4, 5]) if rng.random() < 0.15 else rng.randint(6, 40),
         # flat core: psi constant for u < u0 (the in-plane field vanishes exactly there)
         "u0": rng.choice([0.0, 0.0, 0.12]),
         # psi_axis handed to the constructor is off by axis_shift*psi0 towards the LCFS value:
         # the interpolated normalised flux is negative near the axis and the clamp at 0 acts
         "axis_shift": rng.choice([0.0, 0.04, -0.03]),
-        "poly_scale": rng.choice([1.0, 0.9, 1.07]), "poly_n": rng.randint(12, 72),
+        # polygon from a triangle upwards, either orientation, any starting vertex
+        "poly_scale": rng.choice([1.0, 0.9, 1.07]), "poly_n": rng.choice([3, 4, 5]) if rng.random() < 0.15 else rng.randint(6, 72),
+        "poly_reversed": rng.random() < 0.5, "poly_start": rng.randint(0, 71),
+        # psi, psi_axis, psi_lcfs times 2^k (psi_n, the basis and the LCFS are invariant; the field scales);
+        # all lengths times 2^m; profile values are scaled per profile set
+        "psi_scale_exp": 0 if rng.random() < 0.4 else rng.randint(-100, 100),
+        "length_scale_exp": 0 if rng.random() < 0.6 else rng.randint(-3, 3),
+        # the form in which each array argument is handed to the constructor
+        "forms": {k: rng.choice(FORMS) for k in ("r", "z", "psi", "lcfs_polygon", "f_profile", "q_profile")},
+        "scalar_form": rng.choice(["float", "numpy.float64", "float"]),
         "nonuniform": rng.random() < 0.25,
         # psi held at the LCFS value wherever u >= 1: psi_n is exactly 1.0 there (boundary of psi_n <= 1)
         "plateau": rng.random() < 0.3,
@@ -41,14 +52,49 @@ def solovev_params(rng, sign, idx):
     return p
 
 
+FORMS = ("ndarray", "list", "tuple", "fortran", "noncontiguous", "readonly", "float32")
+
+
+def as_form(arr, form):
+    """The float64 array `arr` in another form the API accepts (same numbers)."""
+    arr = np.array(arr, dtype=np.float64)
+    if form == "list":
+        return arr.tolist()
+    if form == "tuple":
+        return tuple(tuple(row) for row in arr.tolist()) if arr.ndim == 2 else tuple(arr.tolist())
+    if form == "fortran":
+        return np.asfortranarray(arr.copy())
+    if form == "noncontiguous":
+        big = np.zeros(arr.shape[:-1] + (2 * arr.shape[-1],))
+        big[..., ::2] = arr
+        return big[..., ::2]
+    if form == "readonly":
+        c = arr.copy()
+        c.setflags(write=False)
+        return c
+    if form == "float32" and np.array_equal(arr.astype(np.float32).astype(np.float64), arr):
+        return arr.astype(np.float32)
+    return arr.copy()
+
+
+def scribble(obj):
+    """Overwrite a caller-owned array after it was handed over (the callee must have taken a copy)."""
+    if isinstance(obj, np.ndarray) and obj.flags.writeable:
+        obj[...] = (obj * -3 + 17).astype(obj.dtype)
+
+
 def solovev_u(p, R, Z):
     R0, a, k = p["R0"], p["a"], p["kappa"]
     return ((R * R - R0 * R0) / (2 * a * R0)) ** 2 + (Z * R / (k * a * R0)) ** 2
 
 
-def build_solovev(p):
+def build_solovev(p, scribble_inputs=False):
+    """scribble_inputs: overwrite the caller's arrays after construction (aliasing check)."""
     from raysect.core import Point2D
     from cherab.tools.equilibrium import EFITEquilibrium
+    L = 2.0 ** p.get("length_scale_exp", 0)
+    S = 2.0 ** p.get("psi_scale_exp", 0)
+    p = dict(p, R0=p["R0"] * L, a=p["a"] * L, bvac_r=p["bvac_r"] * L)
     R0, a, k, sign = p["R0"], p["a"], p["kappa"], p["sign"]
     r = np.linspace(R0 - 1.35 * a, R0 + 1.3 * a, p["nr"])
     z = np.linspace(-1.4 * k * a, 1.45 * k * a, p["nz"])
@@ -65,20 +111,32 @@ def build_solovev(p):
     w = np.maximum(u - u0, 0.0) / (1.0 - u0)
     if p.get("plateau"):
         w = np.minimum(w, 1.0)
-    psi = p["psi_axis_true"] + sign * p["psi0"] * w
-    psi_axis = p["psi_axis_true"] + sign * p["axis_shift"] * p["psi0"]
-    psi_lcfs = p["psi_axis_true"] + sign * p["psi0"]
+    psi = (p["psi_axis_true"] + sign * p["psi0"] * w) * S
+    psi_axis = (p["psi_axis_true"] + sign * p["axis_shift"] * p["psi0"]) * S
+    psi_lcfs = (p["psi_axis_true"] + sign * p["psi0"]) * S
     t = np.linspace(0, 2 * np.pi, p["poly_n"], endpoint=False)
     Rp = np.sqrt(R0 * R0 + 2 * a * R0 * np.cos(t))
     Zp = k * a * R0 * np.sin(t) / Rp
     sc = 1.4 if p.get("plateau") else p["poly_scale"]     # plateau: wide band inside the polygon where psi_n == 1.0 exactly
     poly = np.array([R0 + sc * (Rp - R0), sc * Zp])
+    if p.get("poly_reversed"):
+        poly = poly[:, ::-1]
+    poly = np.ascontiguousarray(np.roll(poly, p.get("poly_start", 0) % p["poly_n"], axis=1))
     psin = np.linspace(0, 1, p["nf"])
     fprof = np.array([psin, p["f0"] + p["f1"] * psin ** 2])
     qprof = np.array([psin, 1 + 2 * psin ** 2])
-    eq = EFITEquilibrium(r, z, psi, psi_axis, psi_lcfs, Point2D(R0, 0.0), [], [], fprof, qprof,
-                         p["bvac_r"], p["bvac_m"], poly, None, 0.0)
-    return eq, {"lcfs_polygon": poly, "f_profile": fprof, "b_vacuum_radius": p["bvac_r"], "b_vacuum_magnitude": p["bvac_m"]}
+    canon = {"r": r, "z": z, "psi": psi, "lcfs_polygon": poly, "f_profile": fprof, "q_profile": qprof}
+    forms = p.get("forms", {})
+    given = {k_: as_form(v, forms.get(k_, "ndarray")) for k_, v in canon.items()}
+    canon = {k_: np.array(given[k_], dtype=np.float64) for k_ in canon}      # float32 forms: the numbers as given
+    wrap = np.float64 if p.get("scalar_form") == "numpy.float64" else float
+    eq = EFITEquilibrium(given["r"], given["z"], given["psi"], wrap(psi_axis), wrap(psi_lcfs), Point2D(R0, 0.0), [], [],
+                         given["f_profile"], given["q_profile"], wrap(p["bvac_r"]), wrap(p["bvac_m"]), given["lcfs_polygon"], None, 0.0)
+    if scribble_inputs:
+        for v in given.values():
+            scribble(v)
+    return eq, dict(canon, b_vacuum_radius=p["bvac_r"], b_vacuum_magnitude=p["bvac_m"], psi_axis=psi_axis, psi_lcfs=psi_lcfs,
+                    magnetic_axis=(R0, 0.0), limiter_polygon=None)
 
 
 def bundled(name):
@@ -95,8 +153,13 @@ def bundled(name):
         from cherab.generomak.equilibrium import load_equilibrium
         eq = load_equilibrium()
         d = json.load(open(os.path.join(REPO, "cherab/generomak/equilibrium/data/generomak_equilibrium.json")))
-    return eq, {"lcfs_polygon": np.array(d["lcfs_polygon"], dtype=float), "f_profile": np.array(d["f_profile"], dtype=float),
-                "b_vacuum_radius": float(d["b_vacuum_radius"]), "b_vacuum_magnitude": float(d["b_vacuum_magnitude"])}
+    ax = d.get("axis_coord", d.get("magnetic_axis"))
+    return eq, {"r": np.array(d["r"], dtype=float), "z": np.array(d["z"], dtype=float),
+                "psi": np.array(d.get("psi", d.get("psi_grid")), dtype=float),
+                "lcfs_polygon": np.array(d["lcfs_polygon"], dtype=float), "f_profile": np.array(d["f_profile"], dtype=float),
+                "q_profile": np.array(d["q_profile"], dtype=float), "limiter_polygon": np.array(d["limiter_polygon"], dtype=float),
+                "b_vacuum_radius": float(d["b_vacuum_radius"]), "b_vacuum_magnitude": float(d["b_vacuum_magnitude"]),
+                "psi_axis": float(d["psi_axis"]), "psi_lcfs": float(d["psi_lcfs"]), "magnetic_axis": (float(ax[0]), float(ax[1]))}
 
 
 class Eq:
@@ -105,20 +168,23 @@ class Eq:
     def __init__(self, name, eq, inputs, params=None):
         from cherab.core.math import PolygonMask2D
         from raysect.core.math.function.float import Interpolator1DArray
-        self.name, self.eq, self.params = name, eq, params
-        self.r = np.array(eq.r_data, dtype=float)
-        self.z = np.array(eq.z_data, dtype=float)
-        self.psi_grid = np.array(eq.psi_data, dtype=float)
+        self.name, self.eq, self.params, self.inputs = name, eq, params, inputs
+        # grid data: the constructor INPUTS (the stored copies are compared with them in attribute_failures)
+        self.r = np.array(inputs["r"], dtype=float)
+        self.z = np.array(inputs["z"], dtype=float)
+        self.psi_grid = np.array(inputs["psi"], dtype=float)
         self.poly = np.ascontiguousarray(np.array(inputs["lcfs_polygon"], dtype=float).T)        # N x 2
         # the two functions the model takes as given, built from the constructor INPUTS
         self.poly_mask = PolygonMask2D(self.poly)
         fp = np.array(inputs["f_profile"], dtype=float)
         self.f_ref = Interpolator1DArray(fp[0, :], fp[1, :], "cubic", "none", 0)
         self.f_range = (float(fp[0, 0]), float(fp[0, -1]))
-        self.axis = (eq.magnetic_axis.x, eq.magnetic_axis.y)
-        self.psi_axis, self.psi_lcfs = eq.psi_axis, eq.psi_lcfs
-        # the implementation's own derivative interpolators (same code path as in __init__)
-        self.dpsidr, self.dpsidz = eq._calculate_differentials(eq.r_data, eq.z_data, eq.psi_data)
+        qp = np.array(inputs["q_profile"], dtype=float)
+        self.q_ref = Interpolator1DArray(qp[0, :], qp[1, :], "cubic", "none", 0)
+        self.axis = tuple(inputs["magnetic_axis"])
+        self.psi_axis, self.psi_lcfs = float(inputs["psi_axis"]), float(inputs["psi_lcfs"])
+        # the implementation's own derivative interpolators (same code path as in __init__), on the inputs
+        self.dpsidr, self.dpsidz = eq._calculate_differentials(self.r, self.z, self.psi_grid)
         self.bvac_r, self.bvac_m = float(inputs["b_vacuum_radius"]), float(inputs["b_vacuum_magnitude"])
 
     def describe(self):
@@ -175,13 +241,15 @@ def lcfs_crossing(E, rng):
         v = E.eq.psi_normalised(r, z)
         if v > 1.0 and prev is not None and prev <= 1.0:
             lo, hi = t - step, t
-            for _ in range(50):
+            for _ in range(70):
                 mid = 0.5 * (lo + hi)
+                if mid == lo or mid == hi:
+                    break
                 if E.eq.psi_normalised(ax + mid * math.cos(th), az + mid * math.sin(th)) > 1.0:
                     hi = mid
                 else:
                     lo = mid
-            return th, 0.5 * (lo + hi)
+            return th, hi
         prev = v
         t += step
 
@@ -198,13 +266,22 @@ def sample_points(E, rng, n, dyadic_fraction=0.4):
         if u < 0.40:
             r, z = rng.uniform(E.r[0], E.r[-1]), rng.uniform(E.z[0], E.z[-1])
         elif u < 0.65:
-            c = lcfs_crossing(E, rng)
+            try:
+                c = lcfs_crossing(E, rng)
+            except ValueError:
+                c = None
             if c is None:
                 continue
             th, t = c
-            t = t * (1 + rng.choice([-1, 1]) * rng.choice([3e-2, 1e-3, 1e-5, 1e-7]))
+            d = rng.choice([3e-2, 1e-3, 1e-5, 1e-7, 0.0, 0.0])
+            if d == 0.0:
+                # the two adjacent floats between which psi_n crosses 1 (one ulp either side of the bound)
+                t = rng.choice([t, math.nextafter(t, 0.0), math.nextafter(t, math.inf)])
+                cls = "at_lcfs_ulp"
+            else:
+                t = t * (1 + rng.choice([-1, 1]) * d)
+                cls = "near_lcfs"
             r, z = ax + t * math.cos(th), az + t * math.sin(th)
-            cls = "near_lcfs"
         elif u < 0.80:
             rad = 0.25 * (E.r[-1] - E.r[0]) * rng.random() ** 2
             th = rng.uniform(-math.pi, math.pi)
@@ -223,9 +300,11 @@ def sample_points(E, rng, n, dyadic_fraction=0.4):
             vx, vz_ = E.poly[k]
             wx, wz = E.poly[(k + 1) % len(E.poly)]
             s = rng.random()
-            off = rng.choice([-1, 1]) * rng.choice([1e-2, 1e-4])
+            off = rng.choice([-1, 1]) * rng.choice([1e-2, 1e-4, 0.0])
+            if off == 0.0:
+                s = rng.choice([0.0, s])          # exactly a vertex / (up to rounding) on an edge
             r, z = vx + s * (wx - vx) + off * (wz - vz_), vz_ + s * (wz - vz_) - off * (wx - vx)
-            cls = "near_polygon"
+            cls = "near_polygon" if off != 0.0 else "on_polygon"
         if cls == "grid_node":
             phi = rng.choice([0.0, math.pi])
             x, y = (r, 0.0) if phi == 0.0 else (-r, 0.0)
@@ -240,7 +319,11 @@ def sample_points(E, rng, n, dyadic_fraction=0.4):
                 sc = float(1 << 20)
                 x, y, z = round(x * sc) / sc, round(y * sc) / sc, round(z * sc) / sc
         if cls == "midplane":
-            z = 0.0
+            z = rng.choice([0.0, -0.0])
+        if y == 0.0 and rng.random() < 0.5:
+            y = -0.0                               # atan2(-0.0, x < 0) = -pi
+        if x == 0.0 and rng.random() < 0.5:
+            x = -0.0
         rr = math.sqrt(x * x + y * y)
         if not _in_box(E, rr, z, margin=1e-7 if cls != "grid_node" else -1e-12):
             continue
@@ -258,11 +341,13 @@ def sample_points(E, rng, n, dyadic_fraction=0.4):
 # 0 and 1 and with knots beyond [0, 1].  (n, container, flavour); the first twelve are what the quick tier
 # is guaranteed to run through, the rest is the full product.
 _NS = (2, 3, 4, 6, 11)
-_CONTAINERS = ("ndarray", "list", "tuple")
+_CONTAINERS = ("ndarray", "list", "tuple", "fortran", "noncontiguous", "readonly", "float32")
 _FLAVOURS = ("unit", "beyond", "int")
 ARRAY_VARIANTS = [(2, "ndarray", "unit"), (3, "list", "unit"), (4, "tuple", "unit"), (2, "list", "int"),
                   (2, "tuple", "beyond"), (3, "ndarray", "beyond"), (3, "tuple", "int"), (4, "ndarray", "int"),
-                  (4, "list", "beyond"), (2, "ndarray", "int"), (6, "list", "unit"), (11, "ndarray", "beyond")]
+                  (4, "list", "beyond"), (2, "ndarray", "int"), (6, "list", "unit"), (11, "ndarray", "beyond"),
+                  (3, "fortran", "unit"), (4, "noncontiguous", "beyond"), (2, "readonly", "unit"), (6, "float32", "unit"),
+                  (2, "fortran", "int"), (2, "noncontiguous", "unit"), (3, "readonly", "beyond"), (2, "float32", "beyond")]
 ARRAY_VARIANTS += [(n, c, f) for f in _FLAVOURS for c in _CONTAINERS for n in _NS if (n, c, f) not in ARRAY_VARIANTS]
 
 
@@ -275,7 +360,7 @@ def array_profile(rng, variant, scale):
         # integer knots covering [0, 1]: ..., -1, 0, 1, 2, ...
         lo = -((n - 2) // 2)
         xs = [lo + k for k in range(n)]
-        ys = [int(round(scale * rng.randint(-4, 4))) for _ in xs]
+        ys = [rng.randint(-4, 4) for _ in xs]                    # integers: not scaled
         if len(set(ys)) == 1:
             ys[0] += 3
     else:
@@ -292,15 +377,23 @@ def array_profile(rng, variant, scale):
             mid.add(dyadic(rng, 0.02, 0.98, 6))
         xs = sorted(set(ends) | mid)
         ys = [scale * dyadic(rng, -4, 4, 4) for _ in xs]
-    if container == "ndarray":
-        arg = np.array([xs, ys], dtype=np.int64 if flavour == "int" else np.float64)
-    elif container == "list":
-        arg = [list(xs), list(ys)]
-    else:
-        arg = (tuple(xs), tuple(ys))
+    canon = np.array([xs, ys], dtype=np.int64 if flavour == "int" else np.float64)
+
+    def make():
+        """a fresh object of the requested container form holding the same numbers"""
+        if container == "ndarray":
+            return canon.copy()
+        if container in ("list", "tuple"):
+            return [list(xs), list(ys)] if container == "list" else (tuple(xs), tuple(ys))
+        a = as_form(canon, container)
+        if flavour == "int" and container != "float32":
+            a = a.astype(np.int64, order="K") if container != "noncontiguous" else np.stack([a, a], axis=-1).astype(np.int64)[..., 0]
+            if container == "readonly":
+                a.setflags(write=False)
+        return a
     desc = {"kind": "2xN array", "N": n, "container": container, "flavour": flavour,
             "dtype": "int" if flavour == "int" else "float", "x": list(xs), "y": list(ys)}
-    return arg, desc
+    return make, desc
 
 
 class Profile:
@@ -319,7 +412,7 @@ class Profile:
             self.arg = lambda p, a=a, b=b, c=c: a + b * p + c * p * p
             self.ref = self.arg
         elif self.kind == "constant":
-            a = scale * dyadic(rng, -4, 4, 4)
+            a = rng.choice([scale * dyadic(rng, -4, 4, 4), scale * dyadic(rng, -4, 4, 4), 0.0, -0.0])
             self.desc = {"kind": "constant python function", "a": a}
             self.arg = lambda p, a=a: a
             self.ref = self.arg
@@ -335,12 +428,17 @@ class Profile:
         else:
             if array_variant is None:
                 array_variant = ARRAY_VARIANTS[rng.randrange(len(ARRAY_VARIANTS))]
-            self.arg, self.desc = array_profile(rng, array_variant, scale)
+            self.make_arg, self.desc = array_profile(rng, array_variant, scale)
+            self.arg = self.make_arg()
             given = np.array(self.arg, dtype=np.float64)
             assert given.shape == (2, array_variant[0]), given.shape
             self.ref = Interpolator1DArray(given[0, :].copy(), given[1, :].copy(), "cubic", "none", 0)
             self.xmin, self.xmax = float(given[0, 0]), float(given[0, -1])
         self.variant = array_variant
+
+    def fresh_arg(self):
+        """the argument to hand to the API: for arrays a fresh object each time (it is overwritten after the call)"""
+        return self.make_arg() if self.kind == "array" else self.arg
 
     def value(self, p):
         """reference value of the profile at p; 0.0 where the profile is not defined (never used there)"""
@@ -349,31 +447,47 @@ class Profile:
         return float(self.ref(p))
 
 
+INVALID_PROFILES = {
+    "empty 2x0": [[], []],
+    "2x1 (one knot)": [[0.5], [1.0]],
+    "repeated knot": [[0.0, 0.0, 1.0], [1.0, 2.0, 3.0]],
+    "decreasing knots": [[1.0, 0.0], [1.0, 2.0]],
+    "1-D array": [0.0, 1.0, 2.0],
+    "ragged rows": [[0.0, 0.5, 1.0], [1.0, 2.0]],
+    "1xN (values row missing)": [[0.0, 0.5, 1.0]],
+}
+
+
 def rejected_profile_outcomes(eq):
-    """N = 1 is below what the documented interpolant accepts: the expected outcome of every
-    profile-taking entry point is the interpolant's own rejection (ValueError).  Returns
-    (expected exception class name, {entry point: observed outcome})."""
+    """Arrays that are not a 2xN profile with N >= 2 strictly increasing knots.  The expected outcome of
+    every profile-taking entry point is the rejection raised by the documented conversion (float64
+    array, first row knots, second row values, cubic interpolant without extrapolation).
+    Returns {form: (expected exception class name, {entry point: observed outcome})}."""
     from raysect.core.math.function.float import Interpolator1DArray
-    one = [[0.5], [1.0]]
-    try:
-        Interpolator1DArray(np.array(one[0]), np.array(one[1]), "cubic", "none", 0)
-        expected = "accepted"
-    except Exception as e:
-        expected = type(e).__name__
     ok = lambda p: 1.0
-    calls = {"map2d": lambda: eq.map2d(one), "map3d": lambda: eq.map3d(one),
-             "map_vector2d(toroidal)": lambda: eq.map_vector2d(one, ok, ok),
-             "map_vector2d(poloidal)": lambda: eq.map_vector2d(ok, one, ok),
-             "map_vector2d(normal)": lambda: eq.map_vector2d(ok, ok, one),
-             "map_vector3d(normal)": lambda: eq.map_vector3d(ok, ok, one)}
-    seen = {}
-    for name, fn in calls.items():
+    res = {}
+    for form, bad in INVALID_PROFILES.items():
         try:
-            fn()
-            seen[name] = "accepted"
+            a = np.array(bad, np.float64)
+            Interpolator1DArray(a[0, :], a[1, :], "cubic", "none", 0)
+            expected = "accepted"
         except Exception as e:
-            seen[name] = type(e).__name__
-    return expected, seen
+            expected = type(e).__name__
+        calls = {"map2d": lambda: eq.map2d(bad), "map3d": lambda: eq.map3d(bad, 1.0),
+                 "map_vector2d(toroidal)": lambda: eq.map_vector2d(bad, ok, ok),
+                 "map_vector2d(poloidal)": lambda: eq.map_vector2d(ok, bad, ok),
+                 "map_vector2d(normal)": lambda: eq.map_vector2d(ok, ok, bad),
+                 "map_vector3d(toroidal)": lambda: eq.map_vector3d(bad, ok, ok),
+                 "map_vector3d(normal)": lambda: eq.map_vector3d(ok, ok, bad)}
+        seen = {}
+        for name, fn in calls.items():
+            try:
+                fn()
+                seen[name] = "accepted"
+            except Exception as e:
+                seen[name] = type(e).__name__
+        res[form] = (expected, seen)
+    return res
 
 
 class ProfileSet:
@@ -389,33 +503,58 @@ class ProfileSet:
         nv = len(ARRAY_VARIANTS)
         sv = ARRAY_VARIANTS[(index // 2) % nv] if index is not None and index % 2 == 0 else None
         vv = [ARRAY_VARIANTS[(index + k) % nv] for k in range(3)] if index is not None and index % 3 == 1 else [None] * 3
-        self.scalar = Profile(rng, 1.0, sv)
-        self.outside = rng.choice([0.0, dyadic(rng, -8, 8, 4), dyadic(rng, -8, 8, 4)])
-        self.default_outside = self.outside == 0.0 and rng.random() < 0.5
-        self.vt, self.vp, self.vn = Profile(rng, 4.0, vv[0]), Profile(rng, 1.0, vv[1]), Profile(rng, 1.0, vv[2])
-        if rng.random() < 0.3:
-            self.outv = None
-            self.outv_t = (0.0, 0.0, 0.0)
+        # profile values (and outside values) times 2^k: the mapping is linear in them
+        self.scale_exp = 0 if rng.random() < 0.5 else rng.randint(-40, 40)
+        self.scale = 2.0 ** self.scale_exp
+        sc = self.scale
+        self.scalar = Profile(rng, sc, sv)
+        self.outside = rng.choice([0.0, -0.0, sc * dyadic(rng, -8, 8, 4), sc * dyadic(rng, -8, 8, 4), 3.0, 1.0])
+        # the form of the outside value: omitted (default 0.0), Python float, int, bool, numpy scalar
+        if self.outside == 0.0 and math.copysign(1.0, self.outside) > 0 and rng.random() < 0.5:
+            self.outside_form = "omitted"
+        elif self.outside == 3.0:
+            self.outside_form = rng.choice(["int", "numpy.int64"])
+        elif self.outside == 1.0:
+            self.outside_form = "bool"
         else:
-            self.outv_t = tuple(dyadic(rng, -4, 4, 4) for _ in range(3))
+            self.outside_form = rng.choice(["float", "numpy.float64"])
+        self.default_outside = self.outside_form == "omitted"
+        self.vt, self.vp, self.vn = Profile(rng, 4.0 * sc, vv[0]), Profile(rng, sc, vv[1]), Profile(rng, sc, vv[2])
+        u = rng.random()
+        if u < 0.3:
+            self.outv, self.outv_t = None, (0.0, 0.0, 0.0)
+            self.outv_form = "omitted" if u < 0.15 else "explicit None"
+        else:
+            self.outv_t = tuple(sc * dyadic(rng, -4, 4, 4) for _ in range(3))
             self.outv = Vector3D(*self.outv_t)
+            self.outv_form = "Vector3D"
 
     def describe(self):
-        return {"scalar": self.scalar.desc, "outside": self.outside, "default_outside_argument": self.default_outside,
+        return {"scalar": self.scalar.desc, "outside": self.outside, "outside_form": self.outside_form,
+                "value_scale": "2^%d" % self.scale_exp,
                 "toroidal": self.vt.desc, "poloidal": self.vp.desc, "normal": self.vn.desc,
-                "outside_vector": None if self.outv is None else list(self.outv_t)}
+                "outside_vector": None if self.outv is None else list(self.outv_t), "outside_vector_form": self.outv_form}
+
+    def outside_arg(self):
+        f = self.outside_form
+        return {"int": 3, "numpy.int64": np.int64(3), "bool": True, "numpy.float64": np.float64(self.outside)}.get(f, self.outside)
 
     def build(self, eq):
+        """The four mapped functions.  Array arguments are fresh objects that are overwritten after the
+        call: the mapped functions must not alias the caller's arrays."""
+        args = [pr.fresh_arg() for pr in (self.scalar, self.scalar, self.vt, self.vp, self.vn, self.vt, self.vp, self.vn)]
         if self.default_outside:
-            f2, f3 = eq.map2d(self.scalar.arg), eq.map3d(self.scalar.arg)
+            f2, f3 = eq.map2d(args[0]), eq.map3d(args[1])
         else:
-            f2, f3 = eq.map2d(self.scalar.arg, self.outside), eq.map3d(self.scalar.arg, self.outside)
-        if self.outv is None:
-            v2 = eq.map_vector2d(self.vt.arg, self.vp.arg, self.vn.arg)
-            v3 = eq.map_vector3d(self.vt.arg, self.vp.arg, self.vn.arg)
+            f2, f3 = eq.map2d(args[0], self.outside_arg()), eq.map3d(args[1], self.outside_arg())
+        if self.outv_form == "omitted":
+            v2 = eq.map_vector2d(args[2], args[3], args[4])
+            v3 = eq.map_vector3d(args[5], args[6], args[7])
         else:
-            v2 = eq.map_vector2d(self.vt.arg, self.vp.arg, self.vn.arg, self.outv)
-            v3 = eq.map_vector3d(self.vt.arg, self.vp.arg, self.vn.arg, self.outv)
+            v2 = eq.map_vector2d(args[2], args[3], args[4], self.outv)
+            v3 = eq.map_vector3d(args[5], args[6], args[7], value_outside_lcfs=self.outv)
+        for a in args:
+            scribble(a)
         return f2, f3, v2, v3
 
 
@@ -565,6 +704,17 @@ def property_failures(E, PS, fns, o, poly_mask_value=None):
                  inside=inside, psi_n=p)
         if not (o["map3d"] == exp2 or abs(o["map3d"] - exp2) <= 1e-12 * abs(exp2)):
             fail("map3d(x, y, z) is not the mapped value at (sqrt(x^2+y^2), z)", got=o["map3d"], expected=exp2, inside=inside)
+    else:
+        # the decision is within rounding of a boundary: whatever inside_lcfs says, the mapped values must follow it
+        if o["inside"] not in (0.0, 1.0):
+            fail("inside_lcfs is neither 0 nor 1", inside_lcfs=o["inside"])
+        exp2 = PS.scalar.value(p) if o["inside"] else PS.outside
+        for nm in ("map2d", "map3d"):
+            if not (o[nm] == exp2 or abs(o[nm] - exp2) <= 1e-12 * abs(exp2)):
+                fail("%s does not follow inside_lcfs at a point on the LCFS boundary" % nm, got=o[nm], expected=exp2,
+                     inside_lcfs=o["inside"], psi_n=p)
+        if not o["inside"] and max(abs(o["v2"][i] - PS.outv_t[i]) for i in range(3)) > 0.0:
+            fail("map_vector2d does not follow inside_lcfs at a point on the LCFS boundary", got=o["v2"], expected=PS.outv_t)
     # basis
     b, t, pv, nv = o["b"], o["tor"], o["pol"], o["nor"]
     bin_ = math.hypot(b[0], b[2])
@@ -626,13 +776,13 @@ def axisymmetry_failures(E, PS, fns, o, rng):
     for phi in (rng.uniform(-math.pi, math.pi), math.pi / 2, math.pi):
         c, s = math.cos(phi), math.sin(phi)
         val = float(f3(r * c, r * s, z))
-        if abs(val - base) > 1e-7 * (abs(base) + 1e-3):
+        if abs(val - base) > 1e-7 * (abs(base) + 1e-3 * PS.scale):
             fails.append({"clause": "map3d is not axisymmetric", "phi": phi, "value": val, "at_given_point": base})
         vv = v3(w3(r * c, r * s, z))
         # cylindrical components must not depend on phi
         cyl = (c * vv[0] + s * vv[1], -s * vv[0] + c * vv[1], vv[2])
         cyl0 = o["v2"]
-        sc = max(abs(k) for k in cyl0) + 1e-3
+        sc = max(abs(k) for k in cyl0) + 1e-3 * PS.scale
         if max(abs(cyl[i] - cyl0[i]) for i in range(3)) > 1e-7 * sc:
             fails.append({"clause": "cylindrical components of map_vector3d depend on the toroidal angle", "phi": phi,
                           "components": cyl, "in_plane_y0": cyl0})
@@ -677,4 +827,255 @@ def flux_surface_failures(E, angles):
         if med > 0.1:
             worst = max(angles, key=lambda a: a[key])
             fails.append(dict(worst, clause=clause, median_over_points=med, points=len(vals)))
+    return fails
+
+
+# ---------------------------------------------------------------------------------------------
+# histories on one live object, fresh objects, argument forms of the coordinates
+# ---------------------------------------------------------------------------------------------
+OUT_KEYS = ("psi", "psin", "inside", "map2d", "map3d", "b", "tor", "pol", "nor", "v2", "v3")
+
+
+def _same(a, b):
+    """bitwise-equal outputs (signed zeros included)"""
+    ta = a if isinstance(a, tuple) else (a,)
+    tb = b if isinstance(b, tuple) else (b,)
+    return len(ta) == len(tb) and all(x is not None and y is not None and (x == y) and
+                                      (math.copysign(1.0, x) == math.copysign(1.0, y)) for x, y in zip(ta, tb))
+
+
+def history_failures(E, sets, built, evaluated, rng, rebuild, n=10):
+    """`evaluated`: [(x, y, z, set index, outputs)] of this run, in evaluation order.  A sample of them
+    (alternating inside / outside the LCFS, zero / non-zero field, clamped / unclamped where available)
+    is evaluated again on the same live objects in another order, with numpy-scalar coordinates, and
+    on an equilibrium built afresh from the same inputs (whose input arrays are overwritten after the
+    construction): every output must be bitwise what the first evaluation gave."""
+    if not evaluated:
+        return [], 0
+    ins = [e for e in evaluated if e[4]["inside"]]
+    outs = [e for e in evaluated if not e[4]["inside"]]
+    special = [e for e in evaluated if e[4]["psin"] in (0.0, 1.0) or (e[4]["b"][0] == 0.0 and e[4]["b"][2] == 0.0)]
+    rng.shuffle(ins)
+    rng.shuffle(outs)
+    rng.shuffle(special)
+    pick = []
+    for a, b_ in zip(ins[:n // 2], outs[:n // 2]):
+        pick += [a, b_]
+    pick += special[:4]
+    fails = []
+
+    def compare(tag, fresh_E, fns_of, conv=float):
+        for (x, y, z, k, o) in pick:
+            o2 = evaluate_point(fresh_E, sets[k], fns_of(k), conv(x), conv(y), conv(z))
+            if o2["errors"]:
+                fails.append({"clause": "re-evaluation (%s) raised at a point that evaluated before" % tag,
+                              "point": [x, y, z], "errors": o2["errors"]})
+                continue
+            bad = [key for key in OUT_KEYS if not _same(o[key], o2[key])]
+            if bad:
+                fails.append({"clause": "outputs depend on the evaluation history / object instance (%s)" % tag,
+                              "point": [x.hex(), y.hex(), z.hex()], "differing_outputs": bad,
+                              "first": {kk: o[kk] for kk in bad}, "again": {kk: o2[kk] for kk in bad}})
+    compare("same objects, other order", E, lambda k: built[k])
+    pick.reverse()
+    compare("same objects, numpy.float64 coordinates", E, lambda k: built[k], np.float64)
+    fresh = rebuild()
+    fresh_built = {}
+
+    def fns_of(k):
+        if k not in fresh_built:
+            fresh_built[k] = sets[k].build(fresh.eq)
+        return fresh_built[k]
+    compare("equilibrium and mapped functions built afresh, caller's arrays overwritten afterwards", fresh, fns_of)
+    return fails, 3 * len(pick)
+
+
+# ---------------------------------------------------------------------------------------------
+# second-order call sites: the helper classes used directly, the readable attributes, defaults
+# ---------------------------------------------------------------------------------------------
+def direct_class_failures(E, sets, built, evaluated, rng, n=6):
+    """EFITLCFSMask, MagneticField, PoloidalFieldVector, FluxSurfaceNormal and FluxCoordToCartesian built
+    directly (as a user of efit.pyx may) must reproduce the equilibrium's own attributes bitwise; around
+    plain Python callables they must give the documented vectors."""
+    from raysect.core import Vector3D
+    from cherab.tools.equilibrium import efit
+    eq = E.eq
+    fails = []
+    mask = efit.EFITLCFSMask(E.poly, eq.psi_normalised)
+    field = efit.MagneticField(eq.psi_normalised, E.dpsidr, E.dpsidz, E.f_ref, E.bvac_r, E.bvac_m, eq.inside_lcfs)
+    pol, nor = efit.PoloidalFieldVector(eq.b_field), efit.FluxSurfaceNormal(eq.b_field)
+    sample = list(evaluated)
+    rng.shuffle(sample)
+    count = 0
+    for (x, y, z, k, o) in sample[:n]:
+        r = o["r"]
+        PS = sets[k]
+        got = {"inside": float(mask(r, z)), "b": v3(field(r, z)), "pol": v3(pol(r, z)), "nor": v3(nor(r, z))}
+        if o["inside"]:
+            f2c = efit.FluxCoordToCartesian(eq.b_field, eq.psi_normalised, PS.vt.ref, PS.vp.ref, PS.vn.ref)
+            got["v2"] = v3(f2c(r, z))
+        count += len(got)
+        bad = [key for key in got if not _same(o[key], got[key])]
+        if bad:
+            fails.append({"clause": "a helper class of efit.pyx used directly differs from the equilibrium's own attribute",
+                          "point_rz": [r, z], "differing": bad, "attribute": {kk: o[kk] for kk in bad}, "direct": {kk: got[kk] for kk in bad}})
+    # plain Python callables as the wrapped field
+    S = 2.0 ** rng.randint(-60, 60)
+    for bvec, want_p, want_n in (((3.0 * S, 7.0, 4.0 * S), (0.6, 0.0, 0.8), (-0.8, 0.0, 0.6)),
+                                 ((0.0, 5.0, 0.0), (0.0, 0.0, 0.0), (0.0, 0.0, 0.0)),
+                                 ((-2.0 * S, 1.0, 0.0), (-1.0, 0.0, 0.0), (0.0, 0.0, -1.0)),
+                                 ((0.0, 0.0, -2.0 * S), (0.0, 0.0, -1.0), (1.0, 0.0, 0.0))):
+        fld = lambda r, z, bvec=bvec: Vector3D(*bvec)
+        gp, gn = v3(efit.PoloidalFieldVector(fld)(1.5, 0.25)), v3(efit.FluxSurfaceNormal(fld)(1.5, 0.25))
+        gv = v3(efit.FluxCoordToCartesian(fld, lambda r, z: 0.5, lambda p: 2.0, lambda p: 10.0, lambda p: -5.0)(1.5, 0.25))
+        wv = tuple(10.0 * want_p[i] - 5.0 * want_n[i] + (2.0 if i == 1 else 0.0) for i in range(3))
+        count += 3
+        for nm, g, w in (("PoloidalFieldVector", gp, want_p), ("FluxSurfaceNormal", gn, want_n), ("FluxCoordToCartesian", gv, wv)):
+            if max(abs(g[i] - w[i]) for i in range(3)) > 1e-14 * 16:
+                fails.append({"clause": "%s around a constant Python field does not give the documented vector" % nm,
+                              "field": bvec, "got": g, "expected": w})
+    return fails, count
+
+
+def attribute_failures(E, rng):
+    """Readable attributes against the constructor inputs: stored grids, ranges, axis values, f and q
+    interpolants (2xN inputs), inside_limiter (independent point-in-polygon), psin_to_r (outboard
+    mid-plane inverse of psi_n: 1e-3), toroidal vector."""
+    eq, inp = E.eq, E.inputs
+    fails = []
+    count = 0
+
+    def fail(clause, **kw):
+        fails.append(dict(kw, clause=clause, equilibrium=E.describe()))
+    for nm, stored, given in (("r_data", eq.r_data, E.r), ("z_data", eq.z_data, E.z), ("psi_data", eq.psi_data, E.psi_grid),
+                              ("lcfs_polygon", eq.lcfs_polygon, E.poly)):
+        count += 1
+        if not np.array_equal(np.array(stored), given):
+            fail("stored %s differs from the constructor input" % nm)
+    count += 4
+    if tuple(eq.r_range) != (E.r.min(), E.r.max()) or tuple(eq.z_range) != (E.z.min(), E.z.max()):
+        fail("r_range / z_range are not the extent of the grid", r_range=tuple(eq.r_range), z_range=tuple(eq.z_range))
+    if eq.psi_axis != E.psi_axis or eq.psi_lcfs != E.psi_lcfs:
+        fail("psi_axis / psi_lcfs differ from the constructor inputs", got=(eq.psi_axis, eq.psi_lcfs))
+    if (eq.magnetic_axis.x, eq.magnetic_axis.y) != tuple(E.axis):
+        fail("magnetic_axis differs from the constructor input")
+    for _ in range(6):
+        p = rng.choice([0.0, 1.0, rng.random(), rng.random()])
+        count += 2
+        if float(eq.f_profile(p)) != float(E.f_ref(p)):
+            fail("f_profile(psi_n) is not the cubic interpolant of the 2xN input", psi_n=p, got=float(eq.f_profile(p)), expected=float(E.f_ref(p)))
+        if float(eq.q(p)) != float(E.q_ref(p)):
+            fail("q(psi_n) is not the cubic interpolant of the 2xN input", psi_n=p, got=float(eq.q(p)), expected=float(E.q_ref(p)))
+    lim = inp.get("limiter_polygon")
+    if lim is None:
+        count += 1
+        if eq.inside_limiter is not None or eq.limiter_polygon is not None:
+            fail("inside_limiter is not None although no limiter polygon was given")
+    else:
+        lp = np.ascontiguousarray(np.array(lim, dtype=float).T)
+        for _ in range(25):
+            r, z = rng.uniform(E.r[0], E.r[-1]), rng.uniform(E.z[0], E.z[-1])
+            inside, dist = point_in_polygon(lp, r, z)
+            if dist > 1e-7:
+                count += 1
+                if (float(eq.inside_limiter(r, z)) != 0.0) != inside:
+                    fail("inside_limiter differs from an even-odd point-in-polygon test of the limiter polygon", point=[r, z],
+                         got=float(eq.inside_limiter(r, z)), expected=inside)
+    if eq.psin_to_r is not None and min(len(E.r), len(E.z)) >= 12:
+        for _ in range(6):
+            p = rng.uniform(0.05, 0.95)
+            try:
+                rr = float(eq.psin_to_r(p))
+            except ValueError:
+                continue
+            if E.r[0] <= rr <= E.r[-1]:
+                count += 1
+                back = float(eq.psi_normalised(rr, E.axis[1]))
+                if abs(back - p) > 1e-3:
+                    fail("psin_to_r is not the outboard mid-plane inverse of psi_normalised (1e-3)", psi_n=p, r=rr, psi_n_back=back)
+    return fails, count
+
+
+def domain_edge_outcomes(E, PS, fns):
+    """One ulp outside the (r, z) grid domain.  The documented interpolants have no extrapolation: psi,
+    psi_normalised and b_field raise ValueError.  The mapped functions ask the LCFS mask first, which
+    asks the polygon first: outside the polygon they return the outside value without touching the
+    interpolants, inside it (polygon wider than the grid) they raise the interpolant's ValueError.
+    Returns {call: (expected, observed)}."""
+    eq = E.eq
+    f2, f3, w2, w3 = fns
+    r_out, z_in = math.nextafter(float(E.r[-1]), math.inf), float(E.z[len(E.z) // 2])
+    inpoly, dist = point_in_polygon(E.poly, r_out, z_in)
+    res = {}
+
+    def run(name, fn, expected, conv):
+        try:
+            got = conv(fn())
+        except Exception as e:
+            got = type(e).__name__
+        res[name] = (expected, got)
+    for name, fn in (("psi", lambda: eq.psi(r_out, z_in)), ("psi_normalised", lambda: eq.psi_normalised(r_out, z_in)),
+                     ("b_field", lambda: eq.b_field(r_out, z_in))):
+        run(name, fn, "ValueError", lambda v: "accepted")
+    if dist > 1e-7:
+        es = "ValueError" if inpoly else "outside value"
+        sc = lambda v: "outside value" if float(v) == PS.outside else "another value"
+        vc = lambda v: "outside value" if v3(v) == tuple(PS.outv_t) else "another value"
+        run("map2d", lambda: f2(r_out, z_in), es, sc)
+        run("map3d", lambda: f3(r_out, 0.0, z_in), es, sc)
+        run("map_vector2d", lambda: w2(r_out, z_in), es, vc)
+        run("map_vector3d", lambda: w3(r_out, 0.0, z_in), es, vc)
+    return res
+
+
+def constructor_rejections():
+    """x_points / strike_points that are not Point2D: the documented TypeError."""
+    from raysect.core import Point2D
+    from cherab.tools.equilibrium import EFITEquilibrium
+    r = np.linspace(1.0, 2.0, 5)
+    z = np.linspace(-1.0, 1.0, 6)
+    psi = np.add.outer((r - 1.5) ** 2, z ** 2)
+    prof = [[0.0, 1.0], [1.0, 2.0]]
+    poly = [[1.2, 1.8, 1.5], [-0.5, -0.5, 0.5]]
+    seen = {}
+    for name, xp, sp in (("x_points tuple instead of Point2D", [(1.5, 0.0)], []), ("strike_points tuple instead of Point2D", [], [(1.5, 0.0)]),
+                         ("valid Point2D lists", [Point2D(1.5, 0.0)], [Point2D(1.4, -0.4), Point2D(1.6, -0.4)])):
+        try:
+            e = EFITEquilibrium(r, z, psi, 0.0, 0.25, Point2D(1.5, 0.0), xp, sp, prof, prof, 1.5, 2.0, poly, None, 0.0)
+            seen[name] = "accepted (%d x-points, %d strike points)" % (len(e.x_points), len(e.strike_points))
+        except Exception as ex:
+            seen[name] = type(ex).__name__
+    return seen
+
+
+def extreme_scale_failures():
+    """psi scaled by 2^+-520 / 2^-540 on a small Solov'ev grid: the basis must still be orthonormal."""
+    from raysect.core import Point2D
+    from cherab.tools.equilibrium import EFITEquilibrium
+    R0, a, k = 2.0, 0.5, 1.5
+    r = np.linspace(R0 - 1.3 * a, R0 + 1.3 * a, 14)
+    z = np.linspace(-1.4 * k * a, 1.4 * k * a, 15)
+    R, Z = np.meshgrid(r, z, indexing="ij")
+    u = ((R * R - R0 * R0) / (2 * a * R0)) ** 2 + (Z * R / (k * a * R0)) ** 2
+    t = np.linspace(0, 2 * np.pi, 24, endpoint=False)
+    Rp = np.sqrt(R0 * R0 + 2 * a * R0 * np.cos(t))
+    poly = np.array([Rp, k * a * R0 * np.sin(t) / Rp])
+    prof = [[0.0, 1.0], [1.0, 2.0]]
+    fails = []
+    for e_ in (520, -540):
+        S = 2.0 ** e_
+        x, zz = R0 + 0.3 * a, 0.1
+        info = {"psi_scale": "2^%d" % e_, "grid": "Solov'ev R0=2 a=0.5 kappa=1.5, 14x15, psi = (0.5 + u) * scale, axis 0.5*scale, lcfs 1.5*scale",
+                "point_rz": [x, zz]}
+        try:
+            eq = EFITEquilibrium(r, z, (0.5 + u) * S, 0.5 * S, 1.5 * S, Point2D(R0, 0.0), [], [], prof, prof, 1.0, 1.0, poly, None, 0.0)
+            b, pv, nv = v3(eq.b_field(x, zz)), v3(eq.poloidal_vector(x, zz)), v3(eq.surface_normal(x, zz))
+            vv = v3(eq.map_vector2d(lambda p: 1.0, lambda p: 2.0, lambda p: 3.0)(x, zz))
+        except Exception as ex:
+            fails.append(dict(info, clause="basis vectors raise for a flux map of extreme magnitude (b_r^2 + b_z^2 under/overflows)",
+                              error="%s: %s" % (type(ex).__name__, str(ex)[:120])))
+            continue
+        if abs(norm(pv) - 1.0) > 1e-9 or abs(norm(nv) - 1.0) > 1e-9 or abs(dot(vv, pv) - 2.0) > 1e-8:
+            fails.append(dict(info, clause="basis vectors are not of unit length for a flux map of extreme magnitude (b_r^2 + b_z^2 under/overflows)",
+                              b_field=b, poloidal=pv, normal=nv, mapped_velocity=vv))
     return fails
